@@ -8,7 +8,7 @@ import fstree
 import gen
 
 RULE = ("trees containing zip archives (0..N members, nested directories, stored/deflated, unix and DOS mode bits, "
-        "dates across months, names with spaces/unicode), archives with wrong or upper-case extension, corrupt "
+        "dates across months, names with spaces/unicode), hard links to archives (a second name of the same inode), archives with wrong or upper-case extension, corrupt "
         "archives (every truncation point of a small archive in the thorough tier, sampled in quick; flipped "
         "central-directory bytes) x filters, ordering, limits; (a) CLI output vs the Lean model (member tables are "
         "snapshot input read with Python zipfile), (b) oracle: rows for ordinary entries equal the run without "
@@ -31,6 +31,13 @@ def arc_tree(r):
             if cand:
                 r.choice(cand)["encrypted"] = True      # a member that cannot be opened
         ents.append({"path": name, "kind": "z", "members": members, "compress": r.chance(1, 2), "mtime": 1700000000 + i})
+    if r.chance(1, 2):
+        # a second name (hard link) of one of the archives: its members are listed under both names
+        arcs = [e for e in ents if e["kind"] == "z"]
+        tgt = r.choice(arcs)
+        d = r.choice(dirs)
+        ext = os.path.splitext(tgt["path"])[1]
+        ents.append({"path": (d + "/" if d else "") + r.choice(["aaa-hl", "zzz-hl"]) + ext, "kind": "h", "target": tgt["path"]})
     if r.chance(1, 2):
         d = r.choice(dirs)
         ents.append({"path": (d + "/" if d else "") + "broken.zip", "kind": "raw",
@@ -80,9 +87,9 @@ def run(ctx):
                     if len(lrows) != min(n_lim, len(frows)) or any(x not in frows for x in lrows):
                         ctx.oracle_fail("LIMIT n with `archives` must return n rows of the unlimited result (all when fewer exist)", case,
                                         detail={"limit": n_lim, "rows": len(lrows), "unlimited_rows": len(frows)})
-                if limit or order:
+                if limit:
                     continue
-                # oracle on the unlimited, unordered run
+                # oracle on the unlimited run (an ordered run is compared as a multiset)
                 vals = impl["out"].split(b"\0")[:-1]
                 w = len(cols)
                 rows = [vals[i:i + w] for i in range(0, len(vals), w)]
@@ -91,17 +98,18 @@ def run(ctx):
                 prows = [pv[i:i + w] for i in range(0, len(pv), w)]
                 key = cols.index("path") if "path" in cols else cols.index("name")
                 ordinary = [rw for rw in rows if not rw[key].startswith(b"[")]
-                if ordinary != prows:
+                if (sorted(ordinary) != sorted(prows)) if order else (ordinary != prows):
                     ctx.oracle_fail("rows of ordinary entries differ from the run without `archives`", case,
                                     detail={"with": len(ordinary), "without": len(prows)})
                 # members exactly once, from zipfile
-                if not where and "path" in cols:
+                if not where:
                     want = []
                     for n in snap.nodes:
                         z = n["facts"].get("zip")
                         if z:
                             for mem in z:
-                                want.append(("[./%s] %s" % (n["rel"], mem["name"])).encode())
+                                shown = "./" + n["rel"] if "path" in cols else n["name"]
+                                want.append(("[%s] %s" % (shown, mem["name"])).encode())
                     got = [rw[key] for rw in rows if rw[key].startswith(b"[")]
                     if sorted(got) != sorted(want):
                         ctx.oracle_fail("archive members are not reported exactly once each", case,
